@@ -1,6 +1,49 @@
 """C02: no comparison panics or depends on the build profile (R-PANIC); owned forms forward correctly (R-FWD)."""
 from rules.panic_clause import panic_clause
+from rules import table as TB
 from props import common
+
+
+def forwarders(rep, F, rule='R-FWD'):
+    """owned comparison impls forward to the reference impls: same operation, operands in order
+    (a function that stops being a forwarder is undecided, never a violation)"""
+    n = 0
+    for fn in common.cmp_entries(F):
+        item = fn.item
+        owned = (fn.self_ty == 'BigDecimal')
+        if not owned and item != 'partial_cmp':
+            continue
+        key = fn.key + ':forwards'
+        try:
+            paths = TB.PathEnum(F, fn, max_paths=8).run()
+        except TB.Undecided as e:
+            rep.undecided(rule, key, 'not a straight-line forwarder (%s)' % e, fn.where())
+            continue
+        n += 1
+        if len(paths) != 1 or paths[0][0]:
+            rep.undecided(rule, key, 'has its own branching (%d paths): agreement with the reference form is no longer structural' % len(paths), fn.where())
+            continue
+        nf = TB.show(TB.strip_refs(paths[0][1]))
+        a1, a2 = 'to_ref(arg1)', 'to_ref(arg2)'
+        if item in ('eq', 'ne'):
+            good = {'Eq(%s,%s)' % (a1, a2), 'Eq(%s,%s)' % (a2, a1)} if item == 'eq' else {'Ne(%s,%s)' % (a1, a2), 'Ne(%s,%s)' % (a2, a1)}
+            wrong = {'Ne(%s,%s)' % (a1, a2), 'Ne(%s,%s)' % (a2, a1)} if item == 'eq' else set()
+        elif item == 'cmp':
+            good = {'cmp(%s,%s)' % (a1, a2)}
+            wrong = {'cmp(%s,%s)' % (a2, a1), 'Eq(%s,%s)' % (a1, a2)}
+        elif item == 'partial_cmp':
+            good = {'Option::Some(cmp(arg1,arg2))', 'Option::Some(cmp(%s,%s))' % (a1, a2)}
+            wrong = {'Option::Some(cmp(arg2,arg1))', 'Option::Some(cmp(%s,%s))' % (a2, a1), 'Option::None'}
+        else:
+            continue
+        if nf in good:
+            rep.ok(rule, key, 'forwards as %s' % nf, fn.where())
+        elif nf in wrong or (item in ('cmp', 'partial_cmp') and 'reverse(' in nf):
+            rep.violation(rule, key, '%s forwards to the wrong operation or with swapped operands: %s' % (item, nf), fn.where())
+        else:
+            rep.undecided(rule, key, 'unrecognised forwarding shape %s' % nf[:100], fn.where())
+    return n
+
 
 
 def run(ctx):
@@ -18,5 +61,7 @@ def run(ctx):
     names, n = panic_clause(ctx, F, ents, what='comparison of finite decimals')
     rep.floor('bodies reachable from comparisons', len(names), 24)
     rep.floor('may-panic sites enumerated', n, 14)
+    nf = forwarders(rep, ctx.facts('default', 'rel'))
+    rep.floor('comparison forwarders', nf, 4)
     rep.trust(common.TRUST_STD)
     rep.trust(common.TRUST_BIGINT)
